@@ -150,9 +150,10 @@ Definition value_nbits (val : Z) : Z :=
   else let ival := Z.abs (sint32 val) in                       (* abs() is the int function *)
        first_from 64 1 (fun i => ival <? (if i =? 1 then 0 else 2 ^ (i - 1))).
 
+(* the operand of 2 03 YYY: sign and magnitude, no "missing" value (all ones is -(2^(nbits-1)-1); the test for all ones
+   that the function had was removed by the fix f42a628) *)
 Definition cvt_ivalue (value nbits : Z) : Z :=
-  if value =? missing_ivalue nbits then -1
-  else if Z.testbit value (nbits - 1) then sint64 (wrap64 (- (value mod 2 ^ (nbits - 1)))) else sint64 value.
+  if Z.testbit value (nbits - 1) then sint64 (wrap64 (- (value mod 2 ^ (nbits - 1)))) else sint64 value.
 
 Definition negative_ivalue (value nbits : Z) : Z :=
   if 0 <=? value then value
